@@ -10,7 +10,7 @@ From LV Require Import Base.Bytes Base.Sx Model.Obj Model.Writer Model.Parser Mo
   Model.Loader Proofs.RealProofs Proofs.ObjectRtProofs.
 From LV Require Model.A85 Model.AsciiHex Spec.AsciiHexSpec Proofs.AsciiHexProofs.
 From LV Require Import Proofs.SpellingNumProofs Proofs.SpellingObjProofs Proofs.SpellingFileProofs Proofs.SpellingProofsLitRaw.
-From LV Require Model.Utf Proofs.LoadsFrameProofs Proofs.LoadsTableProofs.
+From LV Require Model.Utf Proofs.LoadsFrameProofs Proofs.LoadsTableProofs Proofs.LoadsStreamProofs.
 Local Open Scope N_scope.
 
 (* (1) Cross-reference streams.  For ALL field widths (0 = field absent, any positive width, not all three
@@ -421,6 +421,92 @@ Proof.
     + rewrite Hx, Hs. split; [unfold u32_max; repeat split; lia|]. vm_compute. lia.
 Qed.
 
+(* C02_loads for the cross-reference STREAM format (no filter on the stream, no object streams), against the same loader
+   model: for every style with a cross-reference stream -- ANY field widths W (each 0 or positive: W[0] = 0 when no listed
+   entry needs a type, W[2] = 0 when every generation is 0; a field too narrow for the file is widened by the writer),
+   ANY Index partition covering the objects in use (object 0 need not be listed), Index written or left out when it
+   is [0 Size], the stream object itself in any spelling with any fillers (its dictionary holds the document's
+   trailer entries) -- and everything C02_loads_table_partial covers for the rest of the file: the file the reference
+   writer produces loads with format XTStream, the version, exactly the objects of the document (each as
+   [loaded_top]) plus the cross-reference stream object itself under its own number, and the trailer = the stream
+   dictionary as read back without Length, W, Index (C02_stream_trailer_reading: every other key, in particular Size and
+   every key of the document's trailer, is there with the value read back).
+   PARTIAL with respect to C02_full in these points only: (a) the cross-reference stream carries no Filter, there are no
+   object streams, Length is direct (top_ok) -- the filter chain, object streams and Length references need c01's
+   Model/LoaderExt.v (Loader.load answers LUnmodelled); (b)-(d) as for the table format; the document's trailer has no
+   Prev / Encrypt / Filter / Index entry (adoc_wf of C02_full says the same). *)
+Theorem C02_loads_stream_partial :
+  forall (st : fstyle) (a : adoc) (x : xsstyle) (file : bytes),
+    s_xref st = XStream x -> s_ostms st = [] -> xs_filter x = SfNone -> ref_write st a = Some file ->
+    Forall LoadsTableProofs.top_ok (LoadsTableProofs.tops st a) -> Utf.utf8_decode (a_version a) <> None ->
+    (spell_wf (ODict (LoadsStreamProofs.xd st a x)) (i_obj (xs_istyle x)) /\
+     (nest (ODict (LoadsStreamProofs.xd st a x)) <= MAX_DEPTH)%nat /\
+     dict_get (a_trailer a) K_Prev = None /\ dict_get (a_trailer a) K_Encrypt = None /\
+     dict_get (a_trailer a) K_Filter = None /\ dict_get (a_trailer a) K_Index = None) ->
+    (LoadsTableProofs.xpos st a <= u32_max /\ LoadsStreamProofs.sizeS a x <= u32_max /\ 25 < LoadsTableProofs.xpos st a) ->
+    (9 + length (LoadsTableProofs.sx_mid (s_sx_eol1 st) (s_sx_sp1 st) (LoadsTableProofs.xpos st a) (s_sx_sp2 st) (s_sx_eol2 st)) <= 25)%nat ->
+    exists d, load file = LOk d XTStream /\
+      d_version d = a_version a /\ d_trailer d = LoadsStreamProofs.t0S st a x /\
+      (forall tp, In tp (LoadsTableProofs.tops st a) ->
+                  lookup (d_objects d) (fst (fst tp)) = Some (LoadsTableProofs.loaded_top tp)) /\
+      lookup (d_objects d) (xs_id x, 0) =
+        Some (stream_new (LoadsStreamProofs.dd st a x) (LoadsStreamProofs.raw st a x)) /\
+      (forall id o, lookup (d_objects d) id = Some o ->
+                    (exists tp, In tp (LoadsTableProofs.tops st a) /\ fst (fst tp) = id) \/ id = (xs_id x, 0)).
+Proof. exact LoadsStreamProofs.loads_stream_file. Qed.
+
+Theorem C02_stream_trailer_reading :
+  forall (st : fstyle) (a : adoc) (x : xsstyle) (k : bytes),
+    spell_wf (ODict (LoadsStreamProofs.xd st a x)) (i_obj (xs_istyle x)) ->
+    dict_get (LoadsStreamProofs.t0S st a x) k =
+    if bytes_eqb k K_Index || bytes_eqb k K_W || bytes_eqb k Obj.K_Length then None
+    else dict_get (denote_dict (LoadsStreamProofs.xd st a x) (dict_sts (i_obj (xs_istyle x)))) k.
+Proof. exact LoadsStreamProofs.stream_trailer_reading. Qed.
+
+Definition ex_xsstyle : xsstyle :=
+  {| xs_id := 9; xs_w := (0%nat, 1%nat, 0%nat); xs_secs := [(3, 1); (7, 1); (9, 1)]; xs_omit_index := false;
+     xs_filter := SfNone; xs_array := false;
+     xs_istyle := {| i_f1 := [FWs 1]; i_f2 := []; i_f3 := [FComment (bs "xref") ECR]; i_f4 := [FWs 0]; i_gap := [];
+                     i_obj := YDefault; i_fs := [FWs 2]; i_crlf := true; i_eeol := None |} |}.
+Definition ex_fstyle_s : fstyle :=
+  {| s_junk := s_junk ex_fstyle; s_hdr_eol := ECRLF; s_binary := Some ([xe2; xe3], ECR); s_order := [7; 3];
+     s_objs := s_objs ex_fstyle; s_ostms := []; s_xref := XStream ex_xsstyle;
+     s_sx_eol1 := ECRLF; s_sx_sp1 := 1; s_sx_sp2 := 2; s_sx_eol2 := ECR; s_final_eol := Some ELF |}.
+
+(* non-vacuity: the same two-object document with a cross-reference stream that does not list object 0 (Index
+   [3 1 7 1 9 1]), asked for W [0 1 0] and written with W [0 1 1] (object 3 has generation 2), the stream object
+   holding a comment "xref" after "obj", "stream" CR LF and no end-of-line before "endstream" *)
+Theorem C02_example_loads_stream :
+  ref_write ex_fstyle_s ex_adoc <> None /\
+  LoadsStreamProofs.xd ex_fstyle_s ex_adoc ex_xsstyle =
+    [(bs "Type", OName (bs "XRef")); (bs "Size", OInt 10); (bs "W", OArr [OInt 0; OInt 1; OInt 1]);
+     (bs "Index", OArr [OInt 3; OInt 1; OInt 7; OInt 1; OInt 9; OInt 1]); (bs "Root", ORef 7 0); (bs "Length", OInt 6)] /\
+  Forall LoadsTableProofs.top_ok (LoadsTableProofs.tops ex_fstyle_s ex_adoc) /\
+  (spell_wf (ODict (LoadsStreamProofs.xd ex_fstyle_s ex_adoc ex_xsstyle)) (i_obj (xs_istyle ex_xsstyle)) /\
+   (nest (ODict (LoadsStreamProofs.xd ex_fstyle_s ex_adoc ex_xsstyle)) <= MAX_DEPTH)%nat /\
+   dict_get (a_trailer ex_adoc) K_Prev = None /\ dict_get (a_trailer ex_adoc) K_Encrypt = None /\
+   dict_get (a_trailer ex_adoc) K_Filter = None /\ dict_get (a_trailer ex_adoc) K_Index = None) /\
+  (LoadsTableProofs.xpos ex_fstyle_s ex_adoc <= u32_max /\ LoadsStreamProofs.sizeS ex_adoc ex_xsstyle <= u32_max /\
+   25 < LoadsTableProofs.xpos ex_fstyle_s ex_adoc) /\
+  (9 + length (LoadsTableProofs.sx_mid (s_sx_eol1 ex_fstyle_s) (s_sx_sp1 ex_fstyle_s) (LoadsTableProofs.xpos ex_fstyle_s ex_adoc)
+                 (s_sx_sp2 ex_fstyle_s) (s_sx_eol2 ex_fstyle_s)) <= 25)%nat.
+Proof.
+  assert (Hx : LoadsTableProofs.xpos ex_fstyle_s ex_adoc = 117) by (vm_compute; reflexivity).
+  assert (Hs : LoadsStreamProofs.sizeS ex_adoc ex_xsstyle = 10) by (vm_compute; reflexivity).
+  assert (Hd : LoadsStreamProofs.xd ex_fstyle_s ex_adoc ex_xsstyle =
+    [(bs "Type", OName (bs "XRef")); (bs "Size", OInt 10); (bs "W", OArr [OInt 0; OInt 1; OInt 1]);
+     (bs "Index", OArr [OInt 3; OInt 1; OInt 7; OInt 1; OInt 9; OInt 1]); (bs "Root", ORef 7 0); (bs "Length", OInt 6)])
+    by (vm_compute; reflexivity).
+  split; [vm_compute; discriminate|]. split; [exact Hd|]. split.
+  - exact (proj1 (proj2 C02_example_loads_table)).
+  - split.
+    + rewrite Hd. split.
+      * cbn. split; [|repeat split; reflexivity || (unfold u32_max, u16_max; lia)].
+        repeat (constructor; [cbn; intuition discriminate|]). constructor.
+      * split; [vm_compute; lia|]. repeat split; reflexivity.
+    + rewrite Hx, Hs. split; [unfold u32_max; repeat split; lia|]. vm_compute. lia.
+Qed.
+
 (* the frame: Reader::read reduced to its pieces, for any file junk ++ F *)
 Theorem C02_load_frame :
   forall (junk F pre xr : bytes) version x0 t0 objs,
@@ -569,6 +655,9 @@ Print Assumptions C02_indirect_object_any_spelling.
 Print Assumptions C02_indirect_stream_any_spelling.
 Print Assumptions C02_trailer_any_spelling.
 Print Assumptions C02_loads_table_partial.
+Print Assumptions C02_loads_stream_partial.
+Print Assumptions C02_stream_trailer_reading.
+Print Assumptions C02_example_loads_stream.
 Print Assumptions C02_load_frame.
 Print Assumptions C02_example_loads_table.
 Print Assumptions C02_example_object.
